@@ -5,7 +5,8 @@ import itertools
 from .. import PKG
 from .. import grammar as G
 from ..dte import Table
-from ..load_model import roles, load_table, classify_event
+from ..load_model import (roles, load_table, classify_event,
+                          check_record_wins)
 from ..model import AnalysisError
 from ..util import U, is_const, method_call
 
@@ -233,6 +234,39 @@ def check_table(ctx):
     return f
 
 
+def _handler_guards_plain(ctx, r):
+    """The handler starts by answering `default.check` when there is no
+    deprecated rule (so the merge may call it for every default)."""
+    cache = ctx.__dict__.setdefault('_cache', {})
+    if 'guards_plain' in cache:
+        return cache['guards_plain']
+    from ..dte import inline_helpers
+    prog = ctx.prog
+    f = r.deprecated
+    dflt = f.params[1]
+    t = Table(prog, f, inline=inline_helpers(
+        prog, modules={POLICY}, exclude={r.load_rules.qual, r.loader.qual,
+                                         POLICY + '.Enforcer.check_rules'}),
+        max_depth=4)
+    n = 0
+    ok = True
+    for p in t.paths:
+        neg = [c for c in p.conds if c.kind == 'test' and not c.pol and U(
+            t.expand(c.expr)) == dflt + '.deprecated_rule']
+        if not neg:
+            # every other path must have tested it positively first
+            if not any(c.kind == 'test' and c.pol and U(t.expand(
+                    c.expr)) == dflt + '.deprecated_rule' for c in p.conds):
+                ok = False
+            continue
+        n += 1
+        if p.outcome.kind != 'return' or p.outcome.expr is None or U(
+                t.expand(p.outcome.expr)) != dflt + '.check':
+            ok = False
+    cache['guards_plain'] = ok and n > 0
+    return cache['guards_plain']
+
+
 def check_gate(ctx):
     prog = ctx.prog
     t = load_table(ctx)
@@ -275,6 +309,11 @@ def check_gate(ctx):
                 if U(vx) != b + '.check':
                     bad = bad or (e, 'a plain default is not stored as its '
                                   'own check (%s)' % U(vx))
+            elif from_handler and _handler_guards_plain(ctx, r):
+                # the handler itself answers default.check for a default
+                # without a deprecated rule
+                n_dep += 1
+                n_plain += 1
             else:
                 bad = bad or (e, 'the merge does not distinguish defaults '
                               'with a deprecated rule')
@@ -315,6 +354,7 @@ def check(ctx):
     check_table(ctx)
     check_gate(ctx)
     check_opt(ctx)
+    check_record_wins(ctx, 'C11.RECORD')
     # C11.RECORD: the record of operator overrides the handler consults
     # (file_rules) is maintained together with the rule store (= C10.PAIR,
     # C10.RESET, reported here under C11's name)
